@@ -19,7 +19,7 @@ import re
 from mirlib import BranchFacts, strip, deep_strip, show, walk, const_value
 from rulelib import (
     bool_facts, canon_nobb, facts_at, fmt_path, on_every_cycle, relations, relation_edges, return_assignments,
-    succeeded_calls, leaf_def_blocks,
+    succeeded_calls, leaf_def_blocks, outcome_facts,
 )
 import c03
 
@@ -47,6 +47,7 @@ def run(ctx):
     rule_prefix(ctx, F)
     rule_rollback(ctx, F)
     rule_trunc(ctx, F)
+    rule_lsuffix(ctx, F)
 
 
 SEGS = [("new::base::name::absolute::parse_segment", "size", +1), ("new::base::name::reversed::parse_segment", "offset", -1)]
@@ -838,3 +839,36 @@ def rule_prefix(ctx, F):
                    "correctly prefixed value is refused (its split_bytes sibling passes the data only)"
                    % (p.split("::")[-1], "its whole input" if tm == ("arg", 1) else show(tm)[:60]), b.where(bb))
     ctx.ob(R, "SizePrefixed", "parsers examined", n >= 4, "only %d SizePrefixed parse/split functions found" % n, nontrivial=False)
+
+
+def rule_lsuffix(ctx, F):
+    """The new codec's absolute names are ordered by comparing octets from the end first.  Deciding the order from
+    the two *lengths* alone is right only when the shorter name is a suffix of the longer one in units of labels; that
+    the shorter name's octets end the longer name's octets does not say so (its length octets may fall on content
+    octets of one longer label: `\\0031\\001a.` ends with the octets of `a.`).  So every result of Name::cmp that is a
+    comparison of lengths has to lie behind a fact obtained from the label structure (the label iterator), and the
+    other results compare labels."""
+    R = "C19.lsuffix"
+    ctx.floor(R, 2)
+    b = F.one_body(r"^<new::base::name::absolute::Name as core::cmp::Ord>::cmp$")
+    if not ctx.anchor(R, "<new::base::name::Name as Ord>::cmp", b):
+        return
+    n = 0
+    for rb, si, kind, term in return_assignments(b):
+        if kind.startswith("call:") and re.search(r"impl core::cmp::Ord for usize>::cmp$|<usize as core::cmp::Ord>::cmp$", kind):
+            n += 1
+            structural = False
+            for s, o in outcome_facts(b, rb, F):
+                sh = show(deep_strip(s))
+                if re.search(r"labels\(|LabelIter|remaining\(", sh):
+                    structural = True
+            ctx.ob(R, b, "order decided by length only for a label-aligned suffix #%d" % n, structural,
+                   "Name::cmp answers `self.len().cmp(&that.len())` when no octet differs from the end, without establishing "
+                   "that the shorter name starts at a label boundary of the longer one: the single label `0\\\\001a.` (octets 03 30 "
+                   "01 61 00) sorts after `a.` although RFC 4034 6.1 (and RevName, and the established codec) put it before",
+                   b.where(rb))
+        elif kind.startswith("call:") and re.search(r"label::Label as core::cmp::Ord>::cmp$", kind):
+            ctx.ob(R, b, "otherwise the first differing label decides", True, where=b.where(rb))
+        elif kind in ("const", "agg") or term is not None:
+            cv = const_value(deep_strip(term)) if term is not None else None
+            ctx.ob(R, b, "constant result", True, where=b.where(rb), nontrivial=False, detail=str(cv))
